@@ -399,7 +399,6 @@ func (p *PathCtx) Assert(id string, c *Term, msg string) {
 	}
 	if !p.concrete && len(p.dec) < len(p.prefix) {
 		// An ancestor path executed this very obligation under the same path condition.
-		p.assumeAfterAssert(c)
 		return
 	}
 	p.assertReach[id]++
@@ -422,7 +421,9 @@ func (p *PathCtx) Assert(id string, c *Term, msg string) {
 		case "unsat":
 			p.discharged++
 			p.maybeDump(id, c)
-			p.addPC(c, true)
+			// remembered for later identical conditions, but not added to the solver's assertion stack
+			p.known[c] = true
+			p.known[p.T.Not(c)] = false
 			return
 		case "sat":
 			p.violation(id, "assert", msg, m)
@@ -434,7 +435,7 @@ func (p *PathCtx) Assert(id string, c *Term, msg string) {
 			return
 		}
 	}
-	p.assumeAfterAssert(c)
+	// a violated obligation does not constrain the rest of the path
 }
 
 // assumeAfterAssert continues under the assumption that the assertion holds
